@@ -4,6 +4,7 @@ CONSTANTS
   Versions = {1, 2}
   MaxHist = 6
   MaxPost = 2
+  PostAll = FALSE
 CONSTRAINT Bound
 ACTION_CONSTRAINT EmitBehaviour
 CHECK_DEADLOCK FALSE
